@@ -125,4 +125,278 @@ ReadBack(store, backend) ==
      inflight |-> WithID(store, "IFM", backend),
      sys      |-> IF KeysOf(store, "SYS") = {} THEN {ZeroSys} ELSE ValuesOf(store, "SYS")]
 
+
+--------------------------------------------------------------------------------
+(* PART 2: the persistence protocol                                                             *)
+(*                                                                                              *)
+(* Dev is the set of enabled deviations from the reference (each is one defect of the pinned    *)
+(* code, see /verif/known_findings.d/storage.json):                                             *)
+(*   FlagsNotPersisted   the "has an expiry interval" flag of a session is not written          *)
+(*   NoMsgExpiry         the expiry of a retained message is not written                        *)
+(*   ConcatKeys          key = id ":" suffix string instead of the tuple                        *)
+(*   StoreRefused        a refused SUBSCRIBE is written (failure code as qos) and loaded        *)
+(*   OrphanSubs          Load subscribes records whose client has no loaded session; session    *)
+(*                       expiry deletes only the client record                                  *)
+(*   TakeoverDeletesLive a resuming takeover deletes the in-flight records (same keys as the    *)
+(*                       live session's) on behalf of the superseded object, re-puts them after *)
+(*                       the CONNACK                                                            *)
+(*   ZombieRewrite       the superseded object's teardown rewrites the client record            *)
+(*   NoPacketID          in-flight records are written without packet id                        *)
+(*   AckBeforePersist    the publisher's PUBACK precedes the subscribers' in-flight writes      *)
+CONSTANTS Clients, Filters, Msgs, Dev, MaxOps, MaxConn, MaxSub, MaxPub
+
+VARIABLES sess, subs, ret, inf, store, log, zomb, nops, nconn, nsub, npub
+pvars == <<sess, subs, ret, inf, store, log, zomb, nops, nconn, nsub, npub>>
+
+Mode   == IF "ConcatKeys" \in Dev THEN "concat" ELSE "tuple"
+NoSess == [kind |-> "none", inc |-> 0, online |-> FALSE]
+NoMsg  == [m |-> "", exp |-> FALSE]
+Kinds2 == {"temp", "keepexp"}            \* temp: ends with the connection; keepexp: persistent with an expiry interval
+Persistent(k) == k = "keepexp"
+
+(* ---- records as written ---- *)
+CRec(kind)  == [persist |-> Persistent(kind), seif |-> IF "FlagsNotPersisted" \in Dev THEN FALSE ELSE Persistent(kind)]
+SRec(c, f, q) == [c |-> c, f |-> f, q |-> q]
+RRec(t, v)  == [t |-> t, m |-> v.m, exp |-> IF "NoMsgExpiry" \in Dev THEN FALSE ELSE v.exp]
+IRec(c, pid, m) == [c |-> c, pid |-> IF "NoPacketID" \in Dev THEN 0 ELSE pid, m |-> m]
+IKeyPid(pid) == IF "NoPacketID" \in Dev THEN pid ELSE pid     \* the KEY always carries the pid (as in the code)
+
+(* ---- log entries ---- *)
+Wr(t, c, x, rec, live, harm) == [k |-> "w", t |-> t, c |-> c, x |-> x, rec |-> rec, live |-> live, harm |-> harm]
+Ack(a, c, x, m, ok) == [k |-> "a", a |-> a, c |-> c, x |-> x, m |-> m, ok |-> ok]
+OpE(o, c, x, m, flag, cs) == [k |-> "op", o |-> o, c |-> c, x |-> x, m |-> m, flag |-> flag, cs |-> cs]
+
+ApplyWrite(st, w) ==
+    CASE w.t = "PutClient"   -> PutClient(st, Mode, w.c, w.rec)
+      [] w.t = "DelClient"   -> DelClient(st, Mode, w.c)
+      [] w.t = "PutSub"      -> PutSub(st, Mode, w.c, w.x, w.rec)
+      [] w.t = "DelSub"      -> DelSub(st, Mode, w.c, w.x)
+      [] w.t = "PutRetained" -> PutRetained(st, Mode, w.x, w.rec)
+      [] w.t = "DelRetained" -> DelRetained(st, Mode, w.x)
+      [] w.t = "PutInflight" -> PutInflight(st, Mode, w.c, w.x, w.rec)
+      [] w.t = "DelInflight" -> DelInflight(st, Mode, w.c, w.x)
+
+RECURSIVE ApplyAll(_, _, _)
+ApplyAll(st, es, i) == IF i > Len(es) THEN st
+                       ELSE ApplyAll(IF es[i].k = "w" THEN ApplyWrite(st, es[i]) ELSE st, es, i + 1)
+
+Writes(es) == SelectSeq(es, LAMBDA e : e.k = "w")
+(* position in es of write number n+1 (Len+1 if there is none): everything before it happened before the crash *)
+RECURSIVE PosOfWrite(_, _, _, _)
+PosOfWrite(es, n, i, seen) == IF i > Len(es) THEN Len(es) + 1
+                              ELSE IF es[i].k = "w" THEN (IF seen = n THEN i ELSE PosOfWrite(es, n, i + 1, seen + 1))
+                              ELSE PosOfWrite(es, n, i + 1, seen)
+Prefix(es, n) == SubSeq(es, 1, PosOfWrite(es, n, 1, 0) - 1)
+(* the store that survives a crash after the n-th write (CrashAt(n)) *)
+Replay(es, n) == ApplyAll(EmptyStore, Prefix(es, n), 1)
+
+(* ---- Load = readStore: clients first (non-persistent ones dropped), then subscriptions, in-flight, retained ---- *)
+Load(st) ==
+    LET cl == {k \in KeysOf(st, "CL") : st[k].persist}
+        ids == {c \in Clients : ClientKey(Mode, c) \in cl}
+        srecs == {r \in ValuesOf(st, "SUB") : r.q < 128 \/ "StoreRefused" \in Dev}
+    IN [sess |-> [c \in Clients |-> IF c \in ids THEN [persist |-> TRUE, seif |-> st[ClientKey(Mode, c)].seif] ELSE [persist |-> FALSE, seif |-> FALSE]],
+        has  |-> ids,
+        subs |-> {<<r.c, r.f, r.q>> : r \in {x \in srecs : x.c \in ids \/ "OrphanSubs" \in Dev}},
+        inf  |-> {<<r.c, r.pid, r.m>> : r \in {x \in ValuesOf(st, "IFM") : x.c \in ids}},
+        ret  |-> [t \in Filters |-> IF RetKey(Mode, t) \in DOMAIN st THEN [m |-> st[RetKey(Mode, t)].m, exp |-> st[RetKey(Mode, t)].exp] ELSE NoMsg]]
+
+(* the projection of the abstract memory that Load must reproduce (sessions that are persistent) *)
+Project(se, su, re, in) ==
+    LET ids == {c \in Clients : se[c].kind # "none" /\ Persistent(se[c].kind)}
+    IN [sess |-> [c \in Clients |-> IF c \in ids THEN [persist |-> TRUE, seif |-> TRUE] ELSE [persist |-> FALSE, seif |-> FALSE]],
+        has  |-> ids,
+        subs |-> {<<s[1], s[2], 1>> : s \in {x \in su : x[1] \in ids}},
+        inf  |-> {i \in in : i[1] \in ids},
+        ret  |-> re]
+
+(* ---- the writes that end the session of c (reference: everything keyed by c) ---- *)
+SetToSeqD(S) == IF S = {} THEN <<>> ELSE LET RECURSIVE F(_) F(T) == IF T = {} THEN <<>> ELSE LET x == CHOOSE y \in T : TRUE IN <<x>> \o F(T \ {x}) IN F(S)
+EndWrites(c, live, harm) ==
+    <<Wr("DelClient", c, "", <<>>, live, harm)>>
+    \o [i \in 1..Len(SetToSeqD({s \in subs : s[1] = c})) |-> Wr("DelSub", c, SetToSeqD({s \in subs : s[1] = c})[i][2], <<>>, live, harm)]
+    \o [i \in 1..Len(SetToSeqD({x \in inf : x[1] = c})) |-> Wr("DelInflight", c, SetToSeqD({x \in inf : x[1] = c})[i][2], <<>>, live, harm)]
+
+Emit(es) == /\ log' = log \o es
+            /\ store' = ApplyAll(store, es, 1)
+
+Budget == nops < MaxOps
+Tick == nops' = nops + 1
+
+(* ---- actions ---- *)
+(* a client connects while no connection with its id is open; clean = discard any stored session *)
+Connect(c, kind, clean) ==
+    /\ Budget /\ nconn < MaxConn /\ ~sess[c].online
+    /\ LET resume == ~clean /\ sess[c].kind # "none"
+           drop == IF resume THEN <<>> ELSE SubSeq(EndWrites(c, TRUE, FALSE), 2, Len(EndWrites(c, TRUE, FALSE)))
+       IN /\ sess' = [sess EXCEPT ![c] = [kind |-> kind, inc |-> sess[c].inc + 1, online |-> TRUE]]
+          /\ subs' = IF resume THEN subs ELSE {s \in subs : s[1] # c}
+          /\ inf'  = IF resume THEN inf ELSE {x \in inf : x[1] # c}
+          /\ Emit(<<OpE("connect", c, "", kind, resume, {})>> \o drop
+                  \o <<Wr("PutClient", c, "", CRec(kind), TRUE, FALSE), Ack("connack", c, "", "", resume)>>)
+    /\ Tick /\ nconn' = nconn + 1 /\ UNCHANGED <<ret, zomb, nsub, npub>>
+
+(* a second connection with the id of an open one: the old connection object is superseded *)
+Takeover(c, kind, clean) ==
+    /\ Budget /\ nconn < MaxConn /\ sess[c].online
+    /\ LET resume == ~clean /\ Persistent(sess[c].kind)
+           mine == SetToSeqD({x \in inf : x[1] = c})
+           drop == IF resume THEN <<>> ELSE SubSeq(EndWrites(c, TRUE, FALSE), 2, Len(EndWrites(c, TRUE, FALSE)))
+           dels == IF resume /\ "TakeoverDeletesLive" \in Dev
+                   THEN [i \in 1..Len(mine) |-> Wr("DelInflight", c, mine[i][2], <<>>, FALSE, TRUE)] ELSE <<>>
+           puts == IF resume /\ "TakeoverDeletesLive" \in Dev
+                   THEN [i \in 1..Len(mine) |-> Wr("PutInflight", c, mine[i][2], IRec(c, mine[i][2], mine[i][3]), TRUE, FALSE)] ELSE <<>>
+       IN /\ sess' = [sess EXCEPT ![c] = [kind |-> kind, inc |-> sess[c].inc + 1, online |-> TRUE]]
+          /\ zomb' = zomb \cup {[c |-> c, kind |-> sess[c].kind, inc |-> sess[c].inc]}
+          /\ subs' = IF resume THEN subs ELSE {s \in subs : s[1] # c}
+          /\ inf'  = IF resume THEN inf ELSE {x \in inf : x[1] # c}
+          /\ IF "TakeoverDeletesLive" \in Dev
+             THEN Emit(<<OpE("connect", c, "", kind, resume, {})>> \o drop \o dels \o <<Ack("connack", c, "", "", resume)>> \o puts
+                       \o <<Wr("PutClient", c, "", CRec(kind), TRUE, FALSE)>>)
+             ELSE Emit(<<OpE("connect", c, "", kind, resume, {})>> \o drop
+                       \o <<Wr("PutClient", c, "", CRec(kind), TRUE, FALSE), Ack("connack", c, "", "", resume)>>)
+    /\ Tick /\ nconn' = nconn + 1 /\ UNCHANGED <<ret, nsub, npub>>
+
+(* the superseded connection object finishes its teardown (any time later); the reference writes nothing *)
+ZombieTeardown(z) ==
+    /\ z \in zomb /\ zomb' = zomb \ {z}
+    /\ IF "ZombieRewrite" \in Dev
+       THEN Emit(<<Wr("PutClient", z.c, "", CRec(z.kind), FALSE, TRUE)>>)
+       ELSE UNCHANGED <<log, store>>
+    /\ UNCHANGED <<sess, subs, ret, inf, nops, nconn, nsub, npub>>
+
+Subscribe(c, f) ==
+    /\ Budget /\ nsub < MaxSub /\ sess[c].online
+    /\ subs' = subs \cup {<<c, f>>}
+    /\ Emit(<<OpE("subscribe", c, f, "", TRUE, {}), Wr("PutSub", c, f, SRec(c, f, 1), TRUE, FALSE), Ack("suback", c, f, "", TRUE)>>)
+    /\ Tick /\ nsub' = nsub + 1 /\ UNCHANGED <<sess, ret, inf, zomb, nconn, npub>>
+
+(* a SUBSCRIBE the broker refuses (not authorised): nothing is subscribed *)
+SubscribeRefused(c, f) ==
+    /\ Budget /\ nsub < MaxSub /\ sess[c].online /\ <<c, f>> \notin subs
+    /\ Emit(<<OpE("subscribe", c, f, "", FALSE, {})>>
+            \o (IF "StoreRefused" \in Dev THEN <<Wr("PutSub", c, f, SRec(c, f, 135), TRUE, FALSE)>> ELSE <<>>)
+            \o <<Ack("suback", c, f, "", FALSE)>>)
+    /\ Tick /\ nsub' = nsub + 1 /\ UNCHANGED <<sess, subs, ret, inf, zomb, nconn, npub>>
+
+Unsubscribe(c, f) ==
+    /\ Budget /\ sess[c].online /\ <<c, f>> \in subs
+    /\ subs' = subs \ {<<c, f>>}
+    /\ Emit(<<OpE("unsubscribe", c, f, "", TRUE, {}), Wr("DelSub", c, f, <<>>, TRUE, FALSE), Ack("unsuback", c, f, "", TRUE)>>)
+    /\ Tick /\ UNCHANGED <<sess, ret, inf, zomb, nconn, nsub, npub>>
+
+NextMsg == CHOOSE m \in Msgs : \A m2 \in Msgs : (m2 \in {x[3] : x \in inf} \cup {ret[t].m : t \in Filters}) \/ m <= m2 \/ m2 = m
+
+(* a QoS 1 retained publish (with a message expiry interval), acknowledged to the publisher *)
+PublishRetained(t, m) ==
+    /\ Budget /\ npub < MaxPub
+    /\ ret' = [ret EXCEPT ![t] = [m |-> m, exp |-> TRUE]]
+    /\ Emit(<<OpE("pubret", "", t, m, TRUE, {}), Wr("PutRetained", "", t, RRec(t, [m |-> m, exp |-> TRUE]), TRUE, FALSE), Ack("puback", "", t, m, TRUE)>>)
+    /\ Tick /\ npub' = npub + 1 /\ UNCHANGED <<sess, subs, inf, zomb, nconn, nsub>>
+
+(* a QoS 1 publish: one in-flight message per subscription of a persistent or online session, then the publisher's PUBACK *)
+FreePid(c) == CHOOSE p \in 1..(Cardinality(Msgs) + 1) : \A x \in inf : ~(x[1] = c /\ x[2] = p)
+PublishQos(t, m) ==
+    /\ Budget /\ npub < MaxPub /\ \E s \in subs : s[2] = t
+    /\ LET rcv == SetToSeqD({s[1] : s \in {x \in subs : x[2] = t}})
+           new == {<<rcv[i], FreePid(rcv[i]), m>> : i \in 1..Len(rcv)}
+           ws  == [i \in 1..Len(rcv) |-> Wr("PutInflight", rcv[i], FreePid(rcv[i]), IRec(rcv[i], FreePid(rcv[i]), m), TRUE, FALSE)]
+       IN /\ inf' = inf \cup new
+          /\ IF "AckBeforePersist" \in Dev
+             THEN Emit(<<OpE("pubqos", "", t, m, TRUE, {}), Ack("puback", "", t, m, TRUE)>> \o ws)
+             ELSE Emit(<<OpE("pubqos", "", t, m, TRUE, {})>> \o ws \o <<Ack("puback", "", t, m, TRUE)>>)
+    /\ Tick /\ npub' = npub + 1 /\ UNCHANGED <<sess, subs, ret, zomb, nconn, nsub>>
+
+(* the receiving client acknowledges a delivery *)
+AckDelivery(x) ==
+    /\ Budget /\ x \in inf /\ sess[x[1]].online
+    /\ inf' = inf \ {x}
+    /\ Emit(<<OpE("ackdel", x[1], x[2], x[3], TRUE, {}), Wr("DelInflight", x[1], x[2], <<>>, TRUE, FALSE)>>)
+    /\ Tick /\ UNCHANGED <<sess, subs, ret, zomb, nconn, nsub, npub>>
+
+Disconnect(c) ==
+    /\ Budget /\ sess[c].online
+    /\ IF Persistent(sess[c].kind)
+       THEN /\ sess' = [sess EXCEPT ![c].online = FALSE]
+            /\ Emit(<<OpE("disconnect", c, "", "", TRUE, {})>>)
+            /\ UNCHANGED <<subs, inf>>
+       ELSE /\ sess' = [sess EXCEPT ![c] = NoSess]
+            /\ subs' = {s \in subs : s[1] # c} /\ inf' = {x \in inf : x[1] # c}
+            /\ Emit(<<OpE("disconnect", c, "", "", FALSE, {})>> \o EndWrites(c, TRUE, FALSE))
+    /\ Tick /\ UNCHANGED <<ret, zomb, nconn, nsub, npub>>
+
+(* the session expiry interval of every offline session has passed *)
+ExpiryTick ==
+    /\ Budget /\ \E c \in Clients : sess[c].kind # "none" /\ ~sess[c].online
+    /\ LET ex == {c \in Clients : sess[c].kind # "none" /\ ~sess[c].online}
+           exs == SetToSeqD(ex)
+           RECURSIVE WS(_)
+           WS(i) == IF i > Len(exs) THEN <<>>
+                    ELSE (IF "OrphanSubs" \in Dev THEN <<Wr("DelClient", exs[i], "", <<>>, TRUE, FALSE)>> ELSE EndWrites(exs[i], TRUE, FALSE)) \o WS(i + 1)
+       IN /\ sess' = [c \in Clients |-> IF c \in ex THEN NoSess ELSE sess[c]]
+          /\ subs' = {s \in subs : s[1] \notin ex} /\ inf' = {x \in inf : x[1] \notin ex}
+          /\ Emit(<<OpE("expiry", "", "", "", TRUE, ex)>> \o WS(1))
+    /\ Tick /\ UNCHANGED <<ret, zomb, nconn, nsub, npub>>
+
+PInit == /\ sess = [c \in Clients |-> NoSess] /\ subs = {} /\ ret = [t \in Filters |-> NoMsg] /\ inf = {}
+         /\ store = EmptyStore /\ log = <<>> /\ zomb = {} /\ nops = 0 /\ nconn = 0 /\ nsub = 0 /\ npub = 0
+
+PNext == \/ \E c \in Clients, k \in Kinds2, clean \in BOOLEAN : Connect(c, k, clean) \/ Takeover(c, k, clean)
+         \/ \E z \in zomb : ZombieTeardown(z)
+         \/ \E c \in Clients, f \in Filters : Subscribe(c, f) \/ SubscribeRefused(c, f) \/ Unsubscribe(c, f)
+         \/ \E t \in Filters, m \in Msgs : PublishRetained(t, m) \/ PublishQos(t, m)
+         \/ \E x \in inf : AckDelivery(x)
+         \/ \E c \in Clients : Disconnect(c)
+         \/ ExpiryTick
+
+PSpec == PInit /\ [][PNext]_pvars
+
+(* ---- RestoreFaithful (C20): shut down now (every open connection is dropped), restart: memory := Load(store) ---- *)
+ShutdownLog ==
+    LET on == SetToSeqD({c \in Clients : sess[c].online /\ ~Persistent(sess[c].kind)})
+        RECURSIVE WS(_)
+        WS(i) == IF i > Len(on) THEN <<>> ELSE EndWrites(on[i], TRUE, FALSE) \o WS(i + 1)
+    IN WS(1)
+RestoreFaithful ==
+    LET gone == {c \in Clients : sess[c].online /\ ~Persistent(sess[c].kind)}
+        se == [c \in Clients |-> IF c \in gone THEN NoSess ELSE sess[c]]
+        su == {s \in subs : s[1] \notin gone}
+        in == {x \in inf : x[1] \notin gone}
+    IN Load(ApplyAll(store, ShutdownLog, 1)) = Project(se, su, ret, in)
+
+(* ---- CrashConsistent (C21) ---- *)
+(* obligations after a prefix of the log: what a client was told and has not been removed since *)
+Req0 == [subs |-> {}, inf |-> {}, ret |-> [t \in Filters |-> [acked |-> "", later |-> {}]], persist |-> [c \in Clients |-> FALSE]]
+ReqStep(R, e) ==
+    CASE e.k = "op" /\ e.o = "connect" ->
+            \* a connection that does not resume, or that makes the session end with the connection, releases the obligations
+            LET keep == e.flag /\ Persistent(e.m) IN
+            [R EXCEPT !.subs = IF keep THEN @ ELSE {s \in @ : s[1] # e.c}, !.inf = IF keep THEN @ ELSE {x \in @ : x[1] # e.c}]
+      [] e.k = "w" /\ e.t = "PutClient" /\ e.live -> [R EXCEPT !.persist[e.c] = e.rec.persist]
+      [] e.k = "op" /\ e.o = "subscribe" -> [R EXCEPT !.subs = @ \ {<<e.c, e.x>>}]
+      [] e.k = "a" /\ e.a = "suback" /\ e.ok /\ R.persist[e.c] -> [R EXCEPT !.subs = @ \cup {<<e.c, e.x>>}]
+      [] e.k = "op" /\ e.o = "unsubscribe" -> [R EXCEPT !.subs = @ \ {<<e.c, e.x>>}]
+      [] e.k = "op" /\ e.o = "disconnect" /\ ~e.flag -> [R EXCEPT !.subs = {s \in @ : s[1] # e.c}, !.inf = {x \in @ : x[1] # e.c}]
+      [] e.k = "op" /\ e.o = "expiry" -> [R EXCEPT !.subs = {s \in @ : s[1] \notin e.cs}, !.inf = {x \in @ : x[1] \notin e.cs}]
+      [] e.k = "op" /\ e.o = "pubret" -> [R EXCEPT !.ret[e.x].later = @ \cup {e.m}]
+      [] e.k = "a" /\ e.a = "puback" /\ \E i \in 1..1 : TRUE ->
+            [R EXCEPT !.ret = IF e.m \in R.ret[e.x].later THEN [@ EXCEPT ![e.x] = [acked |-> e.m, later |-> {}]] ELSE @,
+                      !.inf = IF e.m \in R.ret[e.x].later THEN @ ELSE @ \cup {<<s[1], e.m>> : s \in {y \in R.subs : y[2] = e.x}}]
+      [] e.k = "op" /\ e.o = "ackdel" -> [R EXCEPT !.inf = @ \ {<<e.c, e.m>>}]
+      [] OTHER -> R
+RECURSIVE ReqOf(_, _, _)
+ReqOf(R, es, i) == IF i > Len(es) THEN R ELSE ReqOf(ReqStep(R, es[i]), es, i + 1)
+
+Consistent(M, R, es) ==
+    /\ \A s \in R.subs : <<s[1], s[2], 1>> \in M.subs /\ s[1] \in M.has                   \* acknowledged subscriptions restored, with their session
+    /\ \A t \in Filters : M.ret[t].m \in {R.ret[t].acked} \cup R.ret[t].later            \* acknowledged retained message restored
+    /\ \A x \in R.inf : \E i \in M.inf : i[1] = x[1] /\ i[3] = x[2]                       \* acknowledged, undelivered message restored
+    /\ \A s \in M.subs : s[1] \in M.has                                                   \* nothing a Clean Start 1 connection cannot discard
+    /\ \A i \in 1..Len(es) : es[i].k = "w" => ~es[i].harm                                 \* no superseded write on a live key
+
+CrashConsistent ==
+    \A n \in 0..Len(Writes(log)) : Consistent(Load(Replay(log, n)), ReqOf(Req0, Prefix(log, n), 1), Prefix(log, n))
+
+(* the store is always the replay of all writes (sanity of the bookkeeping) *)
+StoreIsReplay == store = Replay(log, Len(Writes(log)))
 ================================================================================
